@@ -41,7 +41,8 @@ struct C02Node {
     unsigned tag, ns, eff;
     QDomElement el;
     // tagFixed/nsFixed >= 0: concrete row (used for the root of "admitted" instances), else symbolic row
-    void make(const Vocab &v, const C02Node *parent, int tagFixed = -1, int nsFixed = -1, bool withText = true)
+    // attrMask: bit a set = attribute row a of the vocabulary may be present on this element (0 = every attribute)
+    void make(const Vocab &v, const C02Node *parent, int tagFixed = -1, int nsFixed = -1, bool withText = true, unsigned attrMask = 0)
     {
         if (tagFixed >= 0) { tag = unsigned(tagFixed); } else { tag = vp_u8(); vp_assume(tag < v.nTags); }
         if (nsFixed >= 0) { ns = unsigned(nsFixed); } else { ns = vp_u8(); vp_assume(ns < v.nNss); }
@@ -52,6 +53,7 @@ struct C02Node {
         if (withText) vp_c02_value(&text, v.nVals ? &v.vals[0][0] : nullptr, C02_A, v.nVals);
         vp_c02_new(&el, &t, &n, &text);
         for (unsigned a = 0; a < v.nAttrs; a++) {
+            if (attrMask && !((attrMask >> a) & 1u)) continue;
             QString name, val; vp_c02_pick(&name, &v.attrs[0][0], C02_A, v.nAttrs, a);
             vp_c02_value(&val, v.nVals ? &v.vals[0][0] : nullptr, C02_A, v.nVals);
             vp_c02_attr(&el, &name, &val, vp_bool());
@@ -74,6 +76,27 @@ struct C02Tree {
     }
 };
 
+// ---- concrete SHAPE tables (stanza-level parsers): one instance per shape (VP_CASE = row of the table), everything else symbolic ----
+// a node: parent index (-1 = root, -2 = end of shape), tag / namespace row (255 = symbolic), attribute mask, up to two attributes forced to be present with a
+// text of fixed length 1..3 and arbitrary units (fa = attribute row, 255 = none), ft = fixed length of the element text (0 = symbolic value)
+struct C02ShapeNode { signed char parent; unsigned char tag, ns; unsigned attrMask; unsigned char fa1, fl1, fa2, fl2, ft; };
+#define C02_MAXNODES 10
+#define C02_END { -2, 0, 0, 0, 255, 0, 255, 0, 0 }
+extern "C" void vp_c02_force_text(QDomElement *el, const QString *text);
+static void c02ForceAttr(QDomElement &el, const Vocab &v, unsigned a, unsigned len) { QString name, val; vp_c02_pick(&name, &v.attrs[0][0], C02_A, v.nAttrs, a); vp_c02_fixed_text(&val, len); vp_c02_force_attr(&el, &name, &val); }
+// builds shape `si` of `shapes` into nodes[]; returns the root element in nodes[0]
+static void c02BuildShape(const Vocab &v, const C02ShapeNode (*shapes)[C02_MAXNODES], unsigned si, C02Node *nodes)
+{
+    for (unsigned k = 0; k < C02_MAXNODES; k++) {
+        const C02ShapeNode &sn = shapes[si][k];
+        if (sn.parent == -2) break;
+        nodes[k].make(v, sn.parent >= 0 ? &nodes[sn.parent] : nullptr, sn.tag == 255 ? -1 : int(sn.tag), sn.ns == 255 ? -1 : int(sn.ns), true, sn.attrMask);
+        if (sn.parent >= 0) vp_c02_append(&nodes[sn.parent].el, &nodes[k].el);
+        if (sn.fa1 != 255) c02ForceAttr(nodes[k].el, v, sn.fa1, sn.fl1);
+        if (sn.fa2 != 255) c02ForceAttr(nodes[k].el, v, sn.fa2, sn.fl2);
+        if (sn.ft) { QString t; vp_c02_fixed_text(&t, sn.ft); vp_c02_force_text(&nodes[k].el, &t); }
+    }
+}
 // P(t) -> x -> toXml -> T1 -> P(T1) -> y -> toXml -> T2 ; T1 == T2.  `admitted` reports whether P accepted t.
 #define C02_FIXPOINT_OPT(T, t, admitted) \
     { auto x = T::fromDom(t); admitted = x.has_value(); \
